@@ -209,6 +209,11 @@ func (c *Contracts) parseFile(path string) error {
 				return fmt.Errorf("%s: %v", it.pos, err)
 			}
 			pd.Body = body
+			if prev, dup := c.Preds[pd.Name]; dup && prev.Body.String() != body.String() {
+				// predicate names are global across packages: a second, different definition would silently rebind
+				// every use of the first
+				return fmt.Errorf("%s: predicate %s is already defined differently elsewhere", it.pos, pd.Name)
+			}
 			c.Preds[pd.Name] = pd
 			curFunc, curLemma = nil, nil
 		case "spec":
